@@ -25,6 +25,7 @@ package io
 //@   ensures [C08.selection-count-exact] r >= 0 && forall(k, 0, size + 1, iff(slice[0] + k*slice[2] < min(size, slice[1]), k < r))
 
 //@ func makeHyperslab(slice, dims) returns (offset, stride, count, block)
+//@   locals i, dim
 //@   simplify entry-ids
 //@   safety C08
 //@   fresh offset, stride, count, block
@@ -65,6 +66,7 @@ package io
 //@ types {T} = ArrayType, Float64, Float32, Int32, Uint32, Int64, Uint64, Int, Uint
 
 //@ func (H5Ref{T}).Load(h) returns (r, err)
+//@   locals f, err, ds, err, s, space, dims, err, shape, result, impl
 //@   simplify entry-ids
 //@   ndmodel interface
 //@   requires ghost.hdf5lock == 0
@@ -72,6 +74,7 @@ package io
 //@   ensures [C08.lock-released] ghost.hdf5lock == 0
 
 //@ func (H5Ref{T}).loadSubset(h, ds) returns (r, err)
+//@   locals space, dims, err, shape, offset, stride, count, block, filespace, dim, size, newSize, ushape, memSpace, err, result, impl
 //@   simplify entry-ids
 //@   ndmodel interface
 //@   requires [C08.lock-precondition] ghost.hdf5lock >= 1
@@ -86,6 +89,7 @@ package io
 //@   loop 0 invariant [C08.load-shape-loop] implies(len(h.Slice) == len(shape), forall(d, rangeindex + 1, len(shape), shape[d] >= 0 && implies(h.Slice[d] == nil, count[d] == shape[d]) && implies(h.Slice[d] != nil, count[d] == selcount(h.Slice[d][0], h.Slice[d][1], h.Slice[d][2], shape[d]))))
 
 //@ func (H5Ref{T}).Write(h, data) returns (err)
+//@   locals f, err, ds, err, arrAsSlice
 //@   simplify entry-ids
 //@   ndmodel interface
 //@   requires ghost.hdf5lock == 0 && data != nil
@@ -94,6 +98,7 @@ package io
 //@   ensures [C08.lock-released] ghost.hdf5lock == 0
 
 //@ func (H5Ref{T}).Create(h, shape, fillValue, compress) returns (err)
+//@   locals f, err, ds, err
 //@   simplify entry-ids
 //@   ndmodel interface
 //@   requires ghost.hdf5lock == 0
@@ -102,6 +107,7 @@ package io
 //@   ensures [C08.lock-released] ghost.hdf5lock == 0
 
 //@ func (H5Ref{T}).WriteSlice(h, data, loc) returns (err)
+//@   locals f, err, ds, err, filespace, shp, stride_count, memSpace, err, impl
 //@   simplify entry-ids
 //@   ndmodel interface
 //@   requires ghost.hdf5lock == 0 && data != nil
@@ -112,6 +118,7 @@ package io
 //@   ensures [C08.lock-released] ghost.hdf5lock == 0
 
 //@ func (H5Ref{T}).LoadText(h) returns (r, err)
+//@   locals f, err, ds, err, dt, err, space, dims, err, maxLen, nStrings, characters, result, i, theBytes, end
 //@   simplify entry-ids
 //@   ndmodel interface
 //@   requires ghost.hdf5lock == 0
@@ -119,6 +126,7 @@ package io
 //@   ensures [C08.lock-released] ghost.hdf5lock == 0
 
 //@ func (H5Ref{T}).GetDatasets(h) returns (r, err)
+//@   locals f, err, g, err, n, err, result, i, name, err, objType, err
 //@   simplify entry-ids
 //@   ndmodel interface
 //@   requires ghost.hdf5lock == 0
@@ -127,6 +135,7 @@ package io
 //@   loop 0 invariant 0 <= i
 
 //@ func (H5Ref{T}).GetGroups(h) returns (r, err)
+//@   locals f, err, g, err, n, err, result, i, name, err, objType, err
 //@   simplify entry-ids
 //@   ndmodel interface
 //@   requires ghost.hdf5lock == 0
@@ -135,6 +144,7 @@ package io
 //@   loop 0 invariant 0 <= i
 
 //@ func (H5Ref{T}).Shape(h) returns (r, err)
+//@   locals f, err, ds, err, space, dims, err, shape
 //@   simplify entry-ids
 //@   ndmodel interface
 //@   requires ghost.hdf5lock == 0
@@ -142,6 +152,7 @@ package io
 //@   ensures [C08.lock-released] ghost.hdf5lock == 0
 
 //@ func (H5Ref{T}).Exists(h) returns (r)
+//@   locals components, path, ix, comp, ref, datasets, err, groups, err
 //@   simplify entry-ids
 //@   ndmodel interface
 //@   requires ghost.hdf5lock == 0
@@ -150,22 +161,26 @@ package io
 //@   loop 0 invariant -1 <= rangeindex && ghost.hdf5lock == 0
 
 //@ func openWriteOrCreate(fn, createIfNotExist) returns (f, err)
+//@   locals f, err, err
 //@   simplify entry-ids
 //@   requires [C08.lock-precondition] ghost.hdf5lock == 2
 //@   assigns nothing
 
 //@ func shapesMatch(ds, shape) returns (r)
+//@   locals space, dims, err, dsShape
 //@   simplify entry-ids
 //@   requires [C08.lock-precondition] ghost.hdf5lock >= 1
 //@   assigns nothing
 
 //@ func openOrCreateDataset(f, path, shape, exampleValue, compress) returns (ds, err)
+//@   locals ds, err, rootGroup, err
 //@   simplify entry-ids
 //@   requires [C08.lock-precondition] ghost.hdf5lock == 2
 //@   assigns ghost.hdf5created
 //@   ensures [C08.open-or-create-writes-no-data] ghost.hdf5datawrites == old(ghost.hdf5datawrites)
 
 //@ func createDataset(g, path, shape, exampleValue, compress) returns (ds, err)
+//@   locals paths, dtype, err, dims, space, err, dcpl, err, ds, err, ds, err, group, err, ds, err
 //@   simplify entry-ids
 //@   requires [C08.lock-precondition] ghost.hdf5lock == 2
 //@   assigns ghost.hdf5created
@@ -173,5 +188,6 @@ package io
 //@   callsite CreateSimpleDataspace [C08.create-shape] len(arg0) == len(shape) && forall(i, 0, len(shape), arg0[i] == shape[i])
 
 //@ func findInSlice(strings, target) returns (r)
+//@   locals i, v
 //@   assigns nothing
 //@   loop 0 invariant -1 <= rangeindex
